@@ -95,6 +95,20 @@ func zzScopeProgram(sv *zzsv.T, k int, clash string, arr *zzExpr) *zzProg {
 		return &zzProg{funcs: []*zzFunc{{name: "f", params: []string{"p"}, body: []*zzStmt{
 			stLocal(clash), stSet(clash, xVar("p")), stEach(clash, "v", arr, stT(xVar(clash))), stRet(xVar(clash))}}},
 			main: []*zzStmt{stSet("r", xCall("f", N)), stT(xVar("a")), stT(xVar("b")), stRet(xVar("r"))}}
+	case 15: // a callee's local is gone when the next function, at the same depth, assigns the global of that name
+		return &zzProg{funcs: []*zzFunc{
+			{name: "first", params: []string{"p"}, body: []*zzStmt{stLocal(clash), stSet(clash, xBin("+", xVar("p"), xLit(5))), stRet(xVar(clash))}},
+			{name: "second", params: []string{"p"}, body: []*zzStmt{stSet(clash, xBin("+", xVar("p"), xLit(7))), stRet(xLit(0))}}},
+			main: []*zzStmt{stSet("r", xCall("first", N)), stSet("q", xCall("second", N)), stT(xVar("a")), stT(xVar("b")), stRet(xVar(clash))}}
+	case 16: // ... or reads it
+		return &zzProg{funcs: []*zzFunc{
+			{name: "first", params: []string{clash}, body: []*zzStmt{stSet(clash, xBin("+", xVar(clash), xLit(5))), stRet(xVar(clash))}},
+			{name: "reader", params: []string{"p"}, body: []*zzStmt{stRet(xBin("+", xVar(clash), xVar("p")))}}},
+			main: []*zzStmt{stSet("r", xCall("first", N)), stSet("q", xCall("reader", xLit(1))), stT(xVar("q")), stT(xVar("a")), stRet(xVar("r"))}}
+	case 17: // a finished loop's variable, then a function assigning the global of that name
+		return &zzProg{funcs: []*zzFunc{
+			{name: "set", params: []string{"p"}, body: []*zzStmt{stSet("x", xBin("+", xVar("p"), xLit(9))), stRet(xLit(0))}}},
+			main: []*zzStmt{stEach("", "x", arr, stSet("r", xVar("x"))), stSet("q", xCall("set", N)), stT(xVar("a")), stRet(xVar("x"))}}
 	default: // a function without return used as a statement: nothing comes back
 		return &zzProg{funcs: []*zzFunc{{name: "f", params: []string{"p"}, body: []*zzStmt{stSet("g", xVar("p"))}}},
 			main: []*zzStmt{stCall("f", N), stCall("f", xBin("+", N, xLit(1))), stRet(xVar("g"))}}
@@ -105,7 +119,7 @@ func zzScopeProgram(sv *zzsv.T, k int, clash string, arr *zzExpr) *zzProg {
 // variables of the same names have their old values, the callee's are gone,
 // other assignments are global.
 func ZZ_C06_Scopes(sv *zzsv.T) {
-	k := sv.Choice("scenario", 16)
+	k := sv.Choice("scenario", 19)
 	clash := []string{"a", "b"}[sv.Choice("clash", 2)]
 	vars := map[string]zv{"a": zInt(sv.Int64("a")), "b": zInt(sv.Int64("b"))}
 	order := []string{"a", "b"}
